@@ -43,6 +43,19 @@ class AuditedThreadPool(ThreadPoolExecutor):
         return fut
 
 
+def _register_custom_storage():
+    """A user-defined backend (vlib.customstorage), registered through the public register_storage.  Its data still lives in
+    the coordinating process, like a DictArray's."""
+    from pipefunc.map import storage_registry
+
+    if "verif_dict_on_disk" not in storage_registry:
+        from pipefunc.map._storage_array._base import register_storage
+
+        from vlib.customstorage import VerifDictOnDisk
+
+        register_storage(VerifDictOnDisk)
+
+
 def plan(tier, seed):
     ncase = 60 if tier == "quick" else 600
     descs = []
@@ -69,6 +82,18 @@ def _storage(case, st, i):
         key = tuple(f["outs"]) if len(f["outs"]) > 1 else f["outs"][0]
         d[key] = names[(i + k + 1) % 3]
     return d
+
+
+def _none_plan(case, i):
+    """(function name, term) of one mapped invocation that legitimately returns None (every fifth case), or None."""
+    if i % 5 != 2:
+        return None
+    _, calls = mapgen.oracle(case)
+    for f in case["funcs"]:
+        if (f["mapspec"] and len(f["outs"]) == 1 and not f["internal_shape"] and len(calls[f["name"]]) >= 2 and not f.get("picker")
+                and any(isinstance(m, list) for m in f["modes"].values())):
+            return f["name"], calls[f["name"]][-1][1]
+    return None
 
 
 def _direct_deps(case):
@@ -131,10 +156,16 @@ def verify(v, case, env, exp_calls, res, folder, log, cfg, w):
 
 
 def run_cfg(v, case, env, exp_calls, scratch, entry, exname, st, idx, dseed, orders, piece=None, reuse=False):
+    if st == "verif_dict_on_disk":
+        _register_custom_storage()
     cfg = f"{entry}/{exname}/{st}" + ("/pieces" if piece else "") + ("/reused-executor" if reuse else "")
     w = dict(case=mapgen.describe(case), cfg=cfg, delay_seed=dseed, first_piece=str(piece))
     log = probes.new_log(scratch)
     fault = {f["name"]: {"delay": [dseed, 3]} for f in case["funcs"]} if dseed else None
+    npl = _none_plan(case, idx) if not piece else None
+    if npl:
+        fault = fault or {}
+        fault.setdefault(npl[0], {})["none"] = {npl[1]: 1}
     folder = os.path.join(scratch, f"run-{abs(hash(cfg)) % 10**8}-{dseed}")
     storage = _storage(case, st, idx)
     ctx = multiprocessing.get_context("fork")
@@ -219,7 +250,8 @@ def run_perm(v, case, env, exp_calls, scratch, desc):
         w = dict(case=mapgen.describe(case), cfg=cfg)
         try:
             with quiet():
-                pipeline = mapgen.build_pipeline(case, log=log)
+                npl = _none_plan(case, desc["i"])
+                pipeline = mapgen.build_pipeline(case, log=log, fault=({npl[0]: {"none": {npl[1]: 1}}} if npl else None))
                 kw = dict(run_folder=folder, internal_shapes=mapgen.internal_shapes_arg(case), storage=_storage(case, st, desc["i"]))
                 inputs = mapgen.make_inputs(case)
                 if entry == "map":
@@ -288,7 +320,10 @@ def run_case(desc):
         case = mapgen.case_from_seed(desc["seed"], desc["i"], allow_autogen=desc["i"] % 2 == 1, allow_renames=desc["i"] % 3 == 0,
                                      allow_int_arrays=desc["i"] % 4 == 1, allow_picker=desc["i"] % 3 == 1)
         v = V()
-    env, exp_calls = mapgen.oracle(case)
+    npl0 = _none_plan(case, desc["i"]) if desc["kind"] != "pieces" else None
+    env, exp_calls = mapgen.oracle(case, none_terms=({npl0[1]} if npl0 else ()))
+    if npl0:
+        v.count("cases_with_a_None_valued_element")
     gens = max(len(c) for c in exp_calls.values())
     keys = []
     with tmpdir("c03-") as scratch:
@@ -296,7 +331,7 @@ def run_case(desc):
         log = probes.new_log(scratch)
         try:
             with quiet():
-                p = mapgen.build_pipeline(case, log=log)
+                p = mapgen.build_pipeline(case, log=log, fault=({npl0[0]: {"none": {npl0[1]: 1}}} if npl0 else None))
                 r = p.map(mapgen.make_inputs(case), run_folder=os.path.join(scratch, "seq"),
                           internal_shapes=mapgen.internal_shapes_arg(case), parallel=False, storage="dict")
             okseq = all(probes.render(r[o].output) == probes.render(env[o]) for f in case["funcs"] for o in f["outs"])
@@ -316,12 +351,14 @@ def run_case(desc):
                         cfgs.append((entry, exname, st))
                 cfgs.append((entry, "process", "mixm"))
                 cfgs.append((entry, "thread", "mixm"))
+                cfgs.append((entry, "process", "verif_dict_on_disk"))
+                cfgs.append((entry, "thread", "verif_dict_on_disk"))
                 cfgs.append((entry, "dictmix", STOR[i % 4]))
                 cfgs.append((entry, "audited", STOR[(i + 1) % 4]))
             cfgs.append(("map", "default", STOR[i % 3]))
             # every case runs a rotating subset (all 19 configurations are covered across cases)
             rng = random.Random(f"c03:{desc['seed']}:{i}")
-            chosen = rng.sample(cfgs, 9)
+            chosen = rng.sample(cfgs, 10)
             for dseed in desc["delay_seeds"]:
                 for n_, (entry, exname, st) in enumerate(chosen):
                     run_cfg(v, case, env, exp_calls, scratch, entry, exname, st, i, dseed, orders,
@@ -367,6 +404,8 @@ def finalize(agg, tier, seed):
         floors.append("more than a third of the cases skipped because the sequential baseline is refused (see C01)")
     if c.get("runs_on_a_reused_executor", 0) < 30:
         floors.append(f"only {c.get('runs_on_a_reused_executor', 0)} runs on an executor that already served another map (< 30)")
+    if c.get("cases_with_a_None_valued_element", 0) < 8:
+        floors.append(f"only {c.get('cases_with_a_None_valued_element', 0)} cases with a None-valued element (< 8)")
     if c.get("pieces_first_runs", 0) < 50:
         floors.append(f"only {c.get('pieces_first_runs', 0)} runs in pieces under pools (< 50)")
     if c.get("runs:process:mixm", 0) < 5:
